@@ -103,9 +103,12 @@ def main():
     m = dict(
         version=1,
         setup_cmd="./check setup",
-        hooks=dict(guard="hypercore_verif", enable="none needed: the harness enters through the public API (Storage::open callback)",
+        hooks=dict(guard="verif-hooks",
+                   enable="cargo feature `verif-hooks` of /repo (off by default), switched on by /verif/harness/Cargo.toml: it compiles "
+                          "src/bitfield/verif_probe.rs, a textual driver for the crate-private FixedBitfield / DynamicBitfield (command "
+                          "`bwx` of the harness, check C08). Everything else enters through the public API (Storage::open callback).",
                    baseline_off_cmd="cd /repo && cargo test --workspace --no-fail-fast --offline",
-                   source_commits=[], add_only=True),
+                   source_commits=["a397d08"], add_only=True),
         engines=[dict(name="coq+correspondence", path="/verif/check",
                       serves_properties=[c["property_id"] for c in checks],
                       kind_free_text="Coq 8.16 proofs over a hand-written Gallina model (coq/), extracted to OCaml and run "
